@@ -585,13 +585,9 @@ pub fn run_check(check: &dyn Check, tier: Tier) -> i32 {
     }
     let _ = std::fs::remove_dir_all(&dir);
 
-    if recheck_mismatches > 0 {
-        eprintln!(
-            "harness error: determinism re-check failed on {} of {} re-executed runs",
-            recheck_mismatches, recheck_runs
-        );
-        harness_error = true;
-    }
+    // Judged at the end: a dependence on process history is itself a violation of some
+    // properties (C19), and then shows up here too
+    let determinism_lost = recheck_mismatches > 0;
 
     // Triage: known findings, minimisation, replay files
     let cap = Capture::install();
@@ -662,6 +658,20 @@ pub fn run_check(check: &dyn Check, tier: Tier) -> i32 {
             ));
             continue;
         }
+        if crate::world_a::poisoned() {
+            // An earlier re-execution in this process ran into an endless loop: report the
+            // remaining classes from their original witnesses without re-executing them
+            let path = write_replay(check, &key, &detail, &scenario, seed, index);
+            lines.push(format!(
+                "VIOLATION property={} replay={} key={} occurrences={} minimise_steps=0 (not re-executed: process poisoned by a hang) :: {}",
+                check.id(),
+                path.display(),
+                key,
+                found_per_key.get(&key).copied().unwrap_or(1),
+                first_line(&detail)
+            ));
+            continue;
+        }
         let (small, small_detail, spent) = minimise(check, &cap, &scenario, &key, 1500);
         // The minimised scenario must fail the same way when executed again
         let confirmed = still_fails(check, &cap, &small, &key);
@@ -672,11 +682,17 @@ pub fn run_check(check: &dyn Check, tier: Tier) -> i32 {
                 match still_fails(check, &cap, &scenario, &key) {
                     Some(d) => (scenario.clone(), d),
                     None => {
-                        lines.push(format!(
-                            "harness error: violation {} of run {} does not reproduce",
-                            key, index
-                        ));
-                        harness_error = true;
+                        if crate::world_a::poisoned() {
+                            // The re-execution itself ran into the endless loop: keep the
+                            // original witness, which the worker did observe
+                            lines.push(format!("note: {} could not be re-executed here (hang); reporting the worker's witness", key));
+                        } else {
+                            lines.push(format!(
+                                "harness error: violation {} of run {} does not reproduce",
+                                key, index
+                            ));
+                            harness_error = true;
+                        }
                         (scenario.clone(), detail.clone())
                     }
                 }
@@ -799,6 +815,20 @@ pub fn run_check(check: &dyn Check, tier: Tier) -> i32 {
     );
     let _ = std::io::stdout().flush();
 
+    if determinism_lost {
+        if unlisted > 0 {
+            println!(
+                "note: {} of {} re-executed runs gave a different event log; the reported violations make the system depend on process history",
+                recheck_mismatches, recheck_runs
+            );
+        } else {
+            eprintln!(
+                "harness error: determinism re-check failed on {} of {} re-executed runs",
+                recheck_mismatches, recheck_runs
+            );
+            harness_error = true;
+        }
+    }
     if harness_error {
         2
     } else if unlisted > 0 {
